@@ -263,6 +263,14 @@ def run(run):
     except Unsupported as e:
         ob.inconclusive(f"unsupported: {e}")
 
+    # positions of re-lexed interpolation tokens are re-based with CaretPos::offset: a diagnostic inside "{expr}" points
+    # into the right line only if that arithmetic is exact
+    try:
+        from props import C18
+        C18.ob_caret(run, mir, rp)
+    except Unsupported as e:
+        run.ob("caret-arith-encoding", "E2", "CaretPos kernels encodable").inconclusive(str(e))
+
     # translator validation: the same renderings, natively
     if all(o.status == "discharged" for o in run.obs):
         n, bad = render_family(rp)
